@@ -150,6 +150,181 @@ theorem try_from_time_eq (o : DurOps V) (v : V) :
       c_V_one, c_Time_new_second, c_Time_new_nanosecond, c_Self_new, c_V_from_u64, c_V_from_u32,
       c_TryFromError_NegativeDuration, c_TryFromError_Overflow, op_lt, op_rem, op_add]
 
+/-! ## operations that may panic (integer storage: conversion through `Ratio<V>` divides) -/
+
+/-- like `DurOps`, but every operation that performs arithmetic may panic (`none`) -/
+structure DurOpsP (V : Type) where
+  zeroQ : V
+  oneV : V
+  ltQ : V → V → Bool
+  remQ : V → V → Option V
+  getSec : V → Option V
+  getNano : V → Option V
+  newSec : V → Option V
+  toU64 : V → Option Nat
+  toU32 : V → Option Nat
+
+def optQ : Option V → RV (DH V)
+  | some x => .host (.q x)
+  | none => .panicked
+def optVv : Option V → RV (DH V)
+  | some x => .host (.v x)
+  | none => .panicked
+
+def envDurP (o : DurOpsP V) : Env (DH V) where
+  ext := fun c args =>
+    if c = c_Time_zero_U_V then .host (.q o.zeroQ)
+    else if c = c_V_one then .host (.v o.oneV)
+    else if c = c_Time_new_second then
+      match args with
+      | [.host (.v x)] => optQ (o.newSec x)
+      | _ => .bad
+    else if c = c_Self_new then
+      match args with
+      | [.nat s, .nat n] => (match durationNew s n with
+        | .ok s n => .host (.dur s n)
+        | _ => .panicked)
+      | _ => .bad
+    else if c = c_TryFromError_NegativeDuration ∨ c = c_TryFromError_Overflow then .ctor0 c
+    else .bad
+  meth := fun m args =>
+    match args with
+    | [.host (.q x)] =>
+      if m = m_get_second then optVv (o.getSec x)
+      else if m = m_get_nanosecond then optVv (o.getNano x) else .bad
+    | [.host (.v x)] =>
+      if m = m_to_u64 then optNat (o.toU64 x) else if m = m_to_u32 then optNat (o.toU32 x) else .bad
+    | _ => .bad
+  binop := fun op a b =>
+    match a, b with
+    | .host (.q x), .host (.q y) =>
+      if op = op_lt then .bool (o.ltQ x y) else if op = op_rem then optQ (o.remQ x y) else .bad
+    | _, _ => .bad
+  field := fun _ _ => .bad
+  cast := fun _ _ => .bad
+  fmtHost := fun _ => none
+  display := fun _ => []
+  nUnits := 0
+  metaVar := fun _ _ => []
+  nBase := 0
+
+/-- `Duration::try_from(time)` over operations that may panic, in source order: negative check, seconds,
+    `new::<second>(one)`, remainder, nanoseconds, then the tuple `match` -/
+def durSpecP (o : DurOpsP V) (v : V) : DurResult :=
+  if o.ltQ v o.zeroQ then .negative
+  else
+    match o.getSec v with
+    | none => .panic
+    | some sv =>
+      match o.newSec o.oneV with
+      | none => .panic
+      | some one =>
+        match o.remQ v one with
+        | none => .panic
+        | some r =>
+          match o.getNano r with
+          | none => .panic
+          | some nv =>
+            match o.toU64 sv, o.toU32 nv with
+            | some s, some n => durationNew s n
+            | _, _ => .overflow
+
+theorem try_from_time_eqP (o : DurOpsP V) (v : V) :
+    run (envDurP o) si_time_TryFrom_Time_for_Duration_try_from [.host (.q v)] = (embedDur (durSpecP o v), []) := by
+  unfold durSpecP
+  cases hlt : o.ltQ v o.zeroQ
+  · cases hg : o.getSec v with
+    | none =>
+      simp [si_time_TryFrom_Time_for_Duration_try_from, envDurP, hlt, hg, optVv, embedDur, c_Time_zero_U_V,
+        c_V_one, c_Time_new_second, c_Self_new, c_TryFromError_NegativeDuration, c_TryFromError_Overflow,
+        m_get_second, m_get_nanosecond, m_to_u64, m_to_u32, op_lt, op_rem]
+    | some sv =>
+      cases hn : o.newSec o.oneV with
+      | none =>
+        cases h1 : o.toU64 sv <;>
+        simp [si_time_TryFrom_Time_for_Duration_try_from, envDurP, hlt, hg, hn, h1, optVv, optQ, optNat, embedDur,
+          c_Time_zero_U_V, c_V_one, c_Time_new_second, c_Self_new, c_TryFromError_NegativeDuration,
+          c_TryFromError_Overflow, m_get_second, m_get_nanosecond, m_to_u64, m_to_u32, op_lt, op_rem]
+      | some one =>
+        cases hr : o.remQ v one with
+        | none =>
+          cases h1 : o.toU64 sv <;>
+          simp [si_time_TryFrom_Time_for_Duration_try_from, envDurP, hlt, hg, hn, hr, h1, optVv, optQ, optNat,
+            embedDur, c_Time_zero_U_V, c_V_one, c_Time_new_second, c_Self_new, c_TryFromError_NegativeDuration,
+            c_TryFromError_Overflow, m_get_second, m_get_nanosecond, m_to_u64, m_to_u32, op_lt, op_rem]
+        | some r =>
+          cases hgn : o.getNano r with
+          | none =>
+            cases h1 : o.toU64 sv <;>
+            simp [si_time_TryFrom_Time_for_Duration_try_from, envDurP, hlt, hg, hn, hr, hgn, h1, optVv, optQ, optNat,
+              embedDur, c_Time_zero_U_V, c_V_one, c_Time_new_second, c_Self_new, c_TryFromError_NegativeDuration,
+              c_TryFromError_Overflow, m_get_second, m_get_nanosecond, m_to_u64, m_to_u32, op_lt, op_rem]
+          | some nv =>
+            cases h1 : o.toU64 sv <;> cases h2 : o.toU32 nv
+            · simp [si_time_TryFrom_Time_for_Duration_try_from, envDurP, hlt, hg, hn, hr, hgn, h1, h2, optVv, optQ,
+                optNat, embedDur, c_Time_zero_U_V, c_V_one, c_Time_new_second, c_Self_new,
+                c_TryFromError_NegativeDuration, c_TryFromError_Overflow, m_get_second, m_get_nanosecond, m_to_u64,
+                m_to_u32, op_lt, op_rem]
+            · simp [si_time_TryFrom_Time_for_Duration_try_from, envDurP, hlt, hg, hn, hr, hgn, h1, h2, optVv, optQ,
+                optNat, embedDur, c_Time_zero_U_V, c_V_one, c_Time_new_second, c_Self_new,
+                c_TryFromError_NegativeDuration, c_TryFromError_Overflow, m_get_second, m_get_nanosecond, m_to_u64,
+                m_to_u32, op_lt, op_rem]
+            · simp [si_time_TryFrom_Time_for_Duration_try_from, envDurP, hlt, hg, hn, hr, hgn, h1, h2, optVv, optQ,
+                optNat, embedDur, c_Time_zero_U_V, c_V_one, c_Time_new_second, c_Self_new,
+                c_TryFromError_NegativeDuration, c_TryFromError_Overflow, m_get_second, m_get_nanosecond, m_to_u64,
+                m_to_u32, op_lt, op_rem]
+            · rename_i s n
+              rcases durationNew_cases s n with ⟨a, b, hd⟩ | hd <;>
+              simp [si_time_TryFrom_Time_for_Duration_try_from, envDurP, hlt, hg, hn, hr, hgn, h1, h2, optVv, optQ,
+                optNat, embedDur, c_Time_zero_U_V, c_V_one, c_Time_new_second, c_Self_new,
+                c_TryFromError_NegativeDuration, c_TryFromError_Overflow, m_get_second, m_get_nanosecond, m_to_u64,
+                m_to_u32, op_lt, op_rem, hd]
+  · simp [si_time_TryFrom_Time_for_Duration_try_from, envDurP, hlt, embedDur, c_Time_zero_U_V,
+      c_V_one, c_Time_new_second, c_Self_new, c_TryFromError_NegativeDuration, c_TryFromError_Overflow, op_lt, op_rem]
+
+/-! ## integer instance: the hand-written exact model `durOfTimeInt` -/
+
+def natInRange (bits : Nat) (x : Int) : Option Nat := if 0 ≤ x ∧ x < 2 ^ bits then some x.toNat else none
+
+/-- the operations of `Time<U, iN|BigInt>` in the exact model (conversion factors are rationals; a division by a
+    zero factor or a remainder by a zero quantity panics) -/
+def intOps (fac cs cn : Rat) : DurOpsP Int where
+  zeroQ := 0
+  oneV := 1
+  ltQ := fun a b => decide (a < b)
+  remQ := fun a b => if b = 0 then none else some (Int.tmod a b)
+  getSec := fun v => if cs = 0 ∨ fac = 0 then none else some (ratTrunc ((v : Rat) * fac / cs))
+  getNano := fun v => if cn = 0 then none else some (ratTrunc ((v : Rat) * fac / cn))
+  newSec := fun x => if fac = 0 then none else some (ratTrunc ((x : Rat) * cs / fac))
+  toU64 := natInRange 64
+  toU32 := natInRange 32
+
+theorem durOfTimeInt_eq_spec (fac cs cn : Rat) (v : Int) :
+    durOfTimeInt fac cs cn v = durSpecP (intOps fac cs cn) v := by
+  unfold durOfTimeInt durSpecP intOps natInRange
+  simp only []
+  by_cases hv : v < 0
+  · simp [hv]
+  · by_cases hz : cs = 0 ∨ fac = 0
+    · simp [hv, hz]
+    · have hfac : fac ≠ 0 := fun h => hz (Or.inr h)
+      have hcs : cs ≠ 0 := fun h => hz (Or.inl h)
+      by_cases h1 : ratTrunc (cs / fac) = 0
+      · simp [hv, hcs, hfac, h1]
+      · by_cases hcn : cn = 0
+        · simp [hv, hcs, hfac, h1, hcn]
+        · by_cases a1 : 0 ≤ ratTrunc ((v : Rat) * fac / cs) <;>
+          by_cases a2 : ratTrunc ((v : Rat) * fac / cs) < 18446744073709551616 <;>
+          by_cases b1 : 0 ≤ ratTrunc (((Int.tmod v (ratTrunc (cs / fac)) : Int) : Rat) * fac / cn) <;>
+          by_cases b2 : ratTrunc (((Int.tmod v (ratTrunc (cs / fac)) : Int) : Rat) * fac / cn) < 4294967296 <;>
+          simp [hv, hcs, hfac, h1, hcn, a1, a2, b1, b2]
+
+/-- **integer storage: the regenerated body is the exact model `durOfTimeInt`**, panics included -/
+theorem try_from_time_int (fac cs cn : Rat) (v : Int) :
+    run (envDurP (intOps fac cs cn)) si_time_TryFrom_Time_for_Duration_try_from [.host (.q v)] =
+      (embedDur (durOfTimeInt fac cs cn v), []) := by
+  rw [try_from_time_eqP, durOfTimeInt_eq_spec]
+
 /-- `Time::try_from(duration)` over abstract operations -/
 def timeSpec (o : DurOps V) (secs nanos : Nat) : Option V :=
   match o.fromU64 secs, o.fromU32 nanos with
